@@ -638,6 +638,9 @@ func runC20(c *run.Ctx) {
 				c.Violation("c20-deadlock", map[string]interface{}{"diag": "all goroutines running ggql frames are parked in Mutex.Lock in two dumps 5 s apart", "dump": clip(res.out, 8000)})
 			case strings.Contains(res.out, "fatal error:"):
 				c.Violation("c20-fatal", map[string]interface{}{"diag": firstLineWith(res.out, "fatal error:"), "output": clip(res.out, 8000)})
+			case c20PanicInGgql(res.out):
+				// a panic inside a registry call took the client goroutine (and the process) down: "any number of goroutines may ..."
+				c.Violation("c20-panic", map[string]interface{}{"diag": firstLineWith(res.out, "panic:"), "output": clip(res.out, 8000)})
 			default:
 				c.Inconclusive(fmt.Sprintf("child %d ended without a report (exit %d)", res.k, res.exit))
 			}
@@ -705,3 +708,26 @@ func runC20(c *run.Ctx) {
 }
 
 var _ = model.Scalar
+
+// c20PanicInGgql: the child died of a Go panic whose goroutine trace starts inside ggql (not in the harness).
+func c20PanicInGgql(out string) bool {
+	i := strings.Index(out, "\npanic: ")
+	if i < 0 && !strings.HasPrefix(out, "panic: ") {
+		return false
+	}
+	if i < 0 {
+		i = 0
+	}
+	rest := out[i:]
+	j := strings.Index(rest, "goroutine ")
+	if j < 0 {
+		return false
+	}
+	trace := rest[j:]
+	if k := strings.Index(trace, "\n\n"); k > 0 {
+		trace = trace[:k]
+	}
+	g := strings.Index(trace, "github.com/uhn/ggql/pkg/ggql.")
+	v := strings.Index(trace, "verif/")
+	return g >= 0 && (v < 0 || g < v)
+}
